@@ -162,6 +162,13 @@ def op_strategy(only_bounds=False, only_modes=False, only_hook=False):
         st.tuples(st.sampled_from(["wait-for-bed", "wait-for-hotend", "wait-for-chamber"]),
                   st.sampled_from(["S", "R", "s", "r"]), vd).map(
             lambda t: {"op": "halt", "mode": t[0], "letter": t[1], "v": t[2]}),
+        # both temperature words on one waiting halt (S: wait while heating,
+        # R: wait always): each of them is a temperature word of the command
+        st.tuples(st.sampled_from(["wait-for-bed", "wait-for-hotend", "wait-for-chamber"]),
+                  st.sampled_from([("S", "R"), ("R", "S"), ("s", "R"), ("S", "r")]),
+                  vdesc_in(), vd, st.booleans()).map(
+            lambda t: {"op": "halt", "mode": t[0], "letter": t[1][0], "v": t[2] if t[4] else t[3],
+                       "letter2": t[1][1], "v2": t[3] if t[4] else t[2]}),
     )
     MISC_ALTS = (
         st.sampled_from(["absolute", "relative"]).map(
@@ -421,6 +428,14 @@ def run_case(case, cl=None):
                 must_reject.append("non-finite")
             if near(v, B[bname]):
                 cl.add("value_within_1ulp_of_bound")
+            if op.get("letter2"):
+                v2 = resolve(op["v2"], B[bname], bname + "2")
+                kw[op["letter2"]] = v2
+                cl.add("halt_with_S_and_R")
+                if not inside(v2, B[bname]):
+                    must_reject.append(f"{op['letter2']}={v2!r} outside {B[bname]!r}")
+                if not math.isfinite(v2):
+                    must_reject.append("non-finite")
         else:
             raise HarnessError("unknown op " + name)
 
